@@ -255,6 +255,9 @@ type Event struct {
 	// truth value it has on this path
 	Val    ssa.Value
 	ValPol bool
+	// Via: the call in the enumerated function through which this event of an inlined callee
+	// (predicate helper, spliced helper) was reached
+	Via ssa.Instruction
 }
 
 func (e Event) String() string {
@@ -321,7 +324,7 @@ func (p *Path) Calls(fn *ssa.Function) []Event {
 		if e.Kind != EvCall {
 			continue
 		}
-		if c, ok := e.Instr.(ssa.CallInstruction); ok && c.Common().StaticCallee() == fn {
+		if c, ok := e.Instr.(ssa.CallInstruction); ok && calleeOf(c.Common()) == fn {
 			out = append(out, e)
 		}
 	}
@@ -349,7 +352,7 @@ func calleeName(in ssa.Instruction) string {
 	if cc.IsInvoke() {
 		return "invoke:" + typeStr(cc.Value.Type()) + "." + cc.Method.Name()
 	}
-	if f := cc.StaticCallee(); f != nil {
+	if f := calleeOf(cc); f != nil {
 		return fnName(f)
 	}
 	if b, ok := cc.Value.(*ssa.Builtin); ok {
@@ -635,7 +638,7 @@ func (pe *pathEnum) spliceLifted(bev []Event) [][]Event {
 		var inner [][]Event
 		if c, ok := e.Instr.(*ssa.Call); ok && e.Kind == EvCall && !c.Call.IsInvoke() {
 			if f := c.Call.StaticCallee(); f != nil && theWorld.liftOwner(f) != nil {
-				restore := aliasParams(f, c.Call.Args)
+				restore := aliasParamsFV(f, c.Call.Args, c.Call.Value)
 				cps, complete := Paths(f, PathOpts{Cap: 64, Splice: true})
 				restore()
 				if complete {
@@ -880,7 +883,21 @@ func (pe *pathEnum) walkPred(fn *ssa.Function, b *ssa.BasicBlock, t *ssa.If, cal
 		if !ok {
 			continue
 		}
-		ne := append(evs[:len(evs):len(evs)], pp.events...)
+		// the call to the predicate itself is replaced by what it does
+		var base []Event
+		for _, e := range evs {
+			if e.Kind == EvCall && e.Instr == ssa.Instruction(call) {
+				continue
+			}
+			base = append(base, e)
+		}
+		ne := base[:len(base):len(base)]
+		for _, e := range pp.events {
+			if e.Via == nil {
+				e.Via = call
+			}
+			ne = append(ne, e)
+		}
 		for i, s := range b.Succs {
 			pol := i == 0
 			want := pol != neg // value the predicate must return for this successor
@@ -903,7 +920,7 @@ func (pe *pathEnum) walkPred(fn *ssa.Function, b *ssa.BasicBlock, t *ssa.If, cal
 			}
 			n2 := ncs.clone()
 			n2.lits[lit] = true
-			ne2 := append(ne[:len(ne):len(ne)], Event{Kind: EvCond, Text: lit, Instr: t, Pol: pol, Val: pp.ret, ValPol: want})
+			ne2 := append(ne[:len(ne):len(ne)], Event{Kind: EvCond, Text: lit, Instr: t, Pol: pol, Val: pp.ret, ValPol: want, Via: call})
 			pe.walk(fn, s, blocks, ne2, visits, n2, false)
 		}
 	}
